@@ -242,4 +242,74 @@ theorem truncate_no_later (size : Int) (m : TMsg R) :
       have := h2 (by omega)
       simp [this]
 
+/-! ### the Len of what is kept, over the whole message -/
+
+theorem lenFold_append (xs ys : List R) (l : Nat) (st : σ) :
+    lenFold lenf (xs ++ ys) l st = lenFold lenf ys (lenFold lenf xs l st).1 (lenFold lenf xs l st).2 := by
+  induction xs generalizing l st with
+  | nil => rfl
+  | cons x xs ih => simp only [List.cons_append, lenFold]; exact ih _ _
+
+/-- one section: the kept prefix folds to at most `size`; and if the loop reports less than `size`, nothing was
+    cut and the loop's length and state are exactly the fold's -/
+theorem loop_result (size : Int) (rs : List R) (l : Nat) (st : σ) (i : Nat) (h : (l : Int) ≤ size) :
+    ((lenFold lenf (rs.take ((truncateLoop lenf size rs l st i).2.1 - i)) l st).1 : Int) ≤ size ∧
+    ((truncateLoop lenf size rs l st i).1 < size →
+      (truncateLoop lenf size rs l st i).2.1 - i = rs.length ∧
+      (truncateLoop lenf size rs l st i).1 = ((lenFold lenf rs l st).1 : Int) ∧
+      (truncateLoop lenf size rs l st i).2.2 = (lenFold lenf rs l st).2) := by
+  refine ⟨loop_fold_le lenf size rs l st i h, ?_⟩
+  intro hlt
+  have hk : (truncateLoop lenf size rs l st i).2.1 = i + rs.length := by
+    have hle := loop_kept_le lenf size rs l st i
+    by_cases hc : (truncateLoop lenf size rs l st i).2.1 < i + rs.length
+    · have := loop_cut_size lenf size rs l st i hc
+      omega
+    · omega
+  have := loop_all_kept lenf size rs l st i hk
+  exact ⟨by omega, this.1, this.2⟩
+
+/-- **kept_len_le**: the Len of question + kept answer + kept authority + kept additional records, computed as
+    Len computes it (running offset, simulated compression state), is at most the budget -/
+theorem kept_len_le (st0 : σ) (size : Int) (m : TMsg R)
+    (hq : ((lenFold lenf m.question 12 st0).1 : Int) ≤ size) :
+    let c := truncCounts lenf st0 size m
+    ((lenFold lenf (m.question ++ m.answer.take c.a.2.1 ++ m.ns.take c.n.2.1 ++ m.extra.take c.e.2.1) 12 st0).1 : Int)
+      ≤ size := by
+  simp only [truncCounts]
+  rw [lenFold_append, lenFold_append, lenFold_append]
+  generalize hqd : lenFold lenf m.question 12 st0 = q at hq ⊢
+  by_cases h0 : (q.1 : Int) < size
+  · simp only [h0, ↓reduceIte]
+    obtain ⟨hA1, hA2⟩ := loop_result lenf size m.answer q.1 q.2 0 hq
+    simp only [Nat.sub_zero] at hA1 hA2
+    by_cases h1 : (truncateLoop lenf size m.answer q.1 q.2 0).1 < size
+    · obtain ⟨eA1, eA2, eA3⟩ := hA2 h1
+      simp only [h1, ↓reduceIte]
+      have hAl : ((truncateLoop lenf size m.answer q.1 q.2 0).1).toNat = (lenFold lenf m.answer q.1 q.2).1 := by
+        rw [eA2]; simp
+      rw [eA1, List.take_length, hAl, eA3]
+      have hA : ((lenFold lenf m.answer q.1 q.2).1 : Int) ≤ size := by rw [← eA2]; omega
+      obtain ⟨hN1, hN2⟩ := loop_result lenf size m.ns (lenFold lenf m.answer q.1 q.2).1 (lenFold lenf m.answer q.1 q.2).2 0 hA
+      simp only [Nat.sub_zero] at hN1 hN2
+      by_cases h2 : (truncateLoop lenf size m.ns (lenFold lenf m.answer q.1 q.2).1 (lenFold lenf m.answer q.1 q.2).2 0).1 < size
+      · obtain ⟨eN1, eN2, eN3⟩ := hN2 h2
+        simp only [h2, ↓reduceIte]
+        have hNl : ((truncateLoop lenf size m.ns (lenFold lenf m.answer q.1 q.2).1 (lenFold lenf m.answer q.1 q.2).2 0).1).toNat
+            = (lenFold lenf m.ns (lenFold lenf m.answer q.1 q.2).1 (lenFold lenf m.answer q.1 q.2).2).1 := by
+          rw [eN2]; simp
+        rw [eN1, List.take_length, hNl, eN3]
+        have hN : ((lenFold lenf m.ns (lenFold lenf m.answer q.1 q.2).1 (lenFold lenf m.answer q.1 q.2).2).1 : Int) ≤ size := by
+          rw [← eN2]; omega
+        have := (loop_result lenf size m.extra
+          (lenFold lenf m.ns (lenFold lenf m.answer q.1 q.2).1 (lenFold lenf m.answer q.1 q.2).2).1
+          (lenFold lenf m.ns (lenFold lenf m.answer q.1 q.2).1 (lenFold lenf m.answer q.1 q.2).2).2 0 hN).1
+        simpa using this
+      · simp only [h2, ↓reduceIte, List.take_zero, lenFold]
+        exact hN1
+    · simp only [h1, ↓reduceIte, List.take_zero, lenFold]
+      exact hA1
+  · simp only [h0, ↓reduceIte, List.take_zero, lenFold]
+    exact hq
+
 end Dns.C09
